@@ -107,11 +107,12 @@ Section Exporter.
 
   Lemma step_Inv st op : eop_nonneg op -> Inv st -> Inv (step o st op).
   Proof.
-    intros Hop H. destruct op as [n|ns| |ns]; cbn [step]; [| | |apply gauge_Inv, fold_offer_Inv; assumption].
+    intros Hop H. destruct op as [n|ns| |ns]; cbn [step]; cbv zeta; [| | |apply gauge_Inv, fold_offer_Inv; assumption].
     - apply gauge_Inv. destruct (is_wfr o).
       + apply run_quiet_Inv, flush_cur_Inv, run_quiet_Inv, offer_Inv; assumption.
       + apply run_quiet_Inv, offer_Inv; assumption.
-    - apply run_quiet_Inv, gauge_Inv, fold_offer_Inv; assumption.
+    - apply gauge_Inv. match goal with |- context [run_quiet o (gauge ?X)] => assert (H2 : Inv (run_quiet o (gauge X))) by (apply run_quiet_Inv, gauge_Inv; apply fold_offer_Inv; assumption) end.
+      destruct (is_wfr o); [apply run_quiet_Inv, flush_cur_Inv, H2|exact H2].
     - apply gauge_Inv, run_quiet_Inv, flush_cur_Inv, H.
   Qed.
 
